@@ -389,6 +389,7 @@ impl Repr {
     }
 
     fn from_chunks(chunks: &[&[Word]], chunk_bits: usize) -> Self {
+        assert!(chunk_bits > 0);
         if let Some(max_len) = chunks.iter().map(|words| words.len()).max() {
             // allocate an extra word for shifting
             let result_len = max_len + (chunks.len() - 1) * chunk_bits + 1;
